@@ -94,6 +94,8 @@ def decode_all(task):
             out["bad"].append(("group-name", f"{fn['name']!r}: group {gname!r}, expected {fn['group']!r}"))
     for bad in task["bad_files"]:
         expect_error(decoders.decode_filename, bad, "file-name-near-miss-accepted")
+        # ... also on the way to the image group name (the name is derived from the DECODED components, not from the outer shape)
+        expect_error(filename_to_groupname, bad, "group-name-from-near-miss")
     return out
 
 
